@@ -44,7 +44,7 @@ Coords ==
   {<<"un", op>> : op \in {"not", "neg", "isEmpty"}}
   \cup {<<"bin", BinOps[i]>> : i \in 1..Len(BinOps)}
   \cup {<<"andor", op>> : op \in {"and", "or"}}
-  \cup {<<"has">>, <<"get">>, <<"is">>, <<"if">>, <<"like">>, <<"likeNonStr">>, <<"hier">>, <<"hierMixed">>, <<"setrec">>}
+  \cup {<<"has">>, <<"get">>, <<"is">>, <<"if">>, <<"like">>, <<"likeLong">>, <<"likeNonStr">>, <<"hier">>, <<"hierMixed">>, <<"setrec">>}
   \cup {<<"sets", op>> : op \in {"eq", "contains", "containsAll", "containsAny"}}
   \cup {<<"alg", s>> : s \in 1..6}
   \cup {<<"dec", f>> : f \in {"lessThan", "lessThanOrEqual", "greaterThan", "greaterThanOrEqual"}}
@@ -58,6 +58,11 @@ CasesOf(k) ==
     [] k[1] = "is" -> {<<"is", x, TypeNames[i]>> : x \in LeafSet, i \in 1..Len(TypeNames)}
     [] k[1] = "if" -> {<<"if", x, y, z>> : x \in LeafSet, y \in Small, z \in Small}
     [] k[1] = "like" -> {<<"like", Lit(S(s)), p>> : s \in SeqsUpTo(StrSyms, LikeN), p \in SeqsUpTo(PatSyms, LikeN)}
+    \* longer texts over two letters against literal segments behind / before / between wildcards: the only match may start
+    \* inside an earlier partial match of a self-overlapping segment ("aaab" like "*aab")
+    [] k[1] = "likeLong" -> {<<"like", Lit(S(s)), p>> : s \in [1..4 -> {97, 98}] \cup [1..5 -> {97, 98}],
+                                                       p \in UNION {{<<Star>> \o q, q \o <<Star>>, <<Star>> \o q \o <<Star>>, <<Star>> \o q \o <<Star, 98>>}
+                                                                    : q \in [1..2 -> {97, 98}] \cup [1..3 -> {97, 98}]}}
     [] k[1] = "likeNonStr" -> {<<"like", x, <<Star>>>> : x \in LeafSet}
     [] k[1] = "hier" -> {Bin("in", Lit(x), Lit(y)) : x \in Ents, y \in Ents}
                         \cup {Bin("in", Lit(x), s) : x \in Ents, s \in EntPairsSets}
